@@ -173,7 +173,7 @@ class OutputBuffer:
         # With JSON output, verbose status messages are left out, so that stdout remains a single JSON document.
         if (self.verbose and not self.json) or self.debug:
             self.info(s)
-            if write_now:
+            if write_now and (len(self.buffer) > 0 or len(self.section) > 0):  # If the minimum output level filtered the message out, there is nothing to write (and no blank line is printed in its place).
                 self.write()
 
         return self
